@@ -540,6 +540,12 @@ def c19_arguments(tier="quick", seed=0):
         ("var r; try { JSON.parse('[1]', function () { throw new RangeError('stop') }) } catch (e) { r = e.name + e.message } r", "RangeErrorstop"),
         ("var ks = []; JSON.stringify({a: {b: 1}, c: [2]}, function (k, v) { ks.push(k + ':' + (this[k] === v)); return v }); ks.join()", ":true,a:true,b:true,c:true,0:true"),
         ("JSON.stringify({a: {toJSON: function () { return 7 }}}, function (k, v) { return v === 7 ? 'seven' : v })", '{"a":"seven"}'),
+        # a reviver that changes the holder it is called on
+        ("JSON.stringify(JSON.parse('[1,2,3]', function (k, v) { if (k === '0') this.length = 1; return v }))", "[1]"),
+        ("JSON.stringify(JSON.parse('{\"a\":[1,2]}', function (k, v) { if (k === '0') this.shift(); return v }))", '{"a":[1]}'),
+        ("JSON.stringify(JSON.parse('[1,2,3]', function (k, v) { if (k === '0') this.pop(); return v }))", "[1,2]"),
+        ("JSON.stringify(JSON.parse('[1,2]', function (k, v) { if (k === '0') this.push(9); return v }))", "[1,2,9]"),
+        ("JSON.stringify(JSON.parse('{\"a\":1,\"b\":2}', function (k, v) { if (k === 'a') delete this.b; return v }))", '{"a":1}'),
     ]
     for i, (src, want) in enumerate(revs):
         try:
